@@ -1,19 +1,58 @@
 UNITS = {
+    # own unit names: other properties register the same packages with other settings
     "c03_node": dict(pkg="./pkg/controller/multi-ip/node", tags="default_build"),
+    # in-package in daemon (white-box networkService); imports pkg/eni, pkg/k8s and
+    # pkg/controller/multi-ip/node through zz_verif_c03_export.go shims. Private net+mount
+    # namespace: nodecap reads /var/run/eni in init(), the agent GC uses netlink.
     "c03_daemon": dict(pkg="./daemon", tags="default_build", unshare=True),
 }
 
 PROPS = {
     "C03": dict(
         level="exploration",
-        technique="property-based testing (rapid): generated records / histories against a release-gate oracle written from the statement",
-        rule="tbd",
-        assumptions=[],
-        level_text="tbd",
-        level_note="tbd",
+        technique="property-based testing (rapid): (b) generated Node CR records x pod tables x NodeRuntime status maps through "
+                  "releasePodNotFound / releaseUnUsedIP / gc (handleStatus+adjustPool) / syncPods / RuntimeFinalStatus; "
+                  "(a) generated histories through the real controller ReconcileNode and the real node agent "
+                  "(AllocIP/ReleaseIP/gcPods/cleanRuntimeNode over eni.Manager+CRDV2 and pkg/k8s) sharing one in-memory API server, "
+                  "a stateful cloud stub underneath; release-gate oracle written from the statement over "
+                  "(previous persisted record, new persisted record, cloud calls, pod table and NodeRuntime at reconcile start)",
+        rule="cases drawn by rapid generators. Function level: 1-3 interfaces (InUse/Deleting/Detaching; secondary/trunk/high-performance) with "
+             "bindings (pod, uid recorded / older incarnation / no uid) and idle addresses (Valid/Deleting), 6 pod slots (absent / Running / Pending / "
+             "Succeeded / Failed, same or other incarnation), runtime entries of every shape (no entry, empty, initial only, deleted only, both in either "
+             "order, nil values; never equal timestamps), IPv4 / dual / IPv6-only, pool sizes, cloud fault plan, entry point release|trim|gc|sync; "
+             "non-trivial = a trim/gc/sync pass over >= 1 bound address, or a release pass with >= 1 bound address whose pod is gone. "
+             "Closed loop: 4-30 (thorough 50) steps over <= 4 (6) pods of create / ADD (optionally reporting the pod IP) / delete object / "
+             "phase Succeeded|Failed / DEL (current, superseded or unknown container id) / flush (may fail) / agent GC (PodExist truthful, failing, "
+             "stale-true; write may fail) / 5-minute job / reconcile (forced GC, full sync, status-write failure or conflict, cloud faults) / "
+             "agent restart / controller restart, plus bindings that pre-exist the history with or without a recorded UID; two thirds of the steps "
+             "follow a pod's natural lifecycle, one third is arbitrary; non-trivial = some reconcile starts with a bound address whose pod object is "
+             "gone while its teardown report is still pending, or a pool GC pass runs over >= 1 bound address. distinct = distinct scenario hash",
+        assumptions=[
+            "NodeRuntime timestamps of one pod are never equal: the harness gives every agent step its own virtual second (rewriting "
+            "LastUpdateTime through the API right after the step); neither code nor docs define ties",
+            "virtual time lies 2 h in the past, so the agent's 30 s freshness guard in cleanRuntimeNode never holds an entry back",
+            "no out-of-band cloud drift (an address lost in the cloud is not a reclaim by the control plane); exercised under C02/C08",
+            "function level: records are reachable ones - bindings only on interfaces the record still wants (InUse), addresses marked "
+            "Deleting are unbound, a bound pod holds one address per enabled family on one interface (records with one family bound only make "
+            "the allocator's roll-back unbind the other family of a LIVE pod; such records arise only from an IP-stack change on a running node)",
+            "a teardown report that rests on the GC's API re-check (PodExist false) is accepted whatever the sandbox does, as the statement says; "
+            "PodExist is by name, so it covers every UID that ever lived under that name",
+            "PodUID == \"\" bindings (taken over from a version that did not record UIDs) carry no teardown protocol: reclaim needs only the pod to be gone",
+        ],
+        level_text="generated records and generated histories of the two-process protocol run through the real controller and the real node agent "
+                   "against an oracle written from the statement; bounded liveness (pod gone and teardown reported => freed by the next fault-free "
+                   "reconcile) and the agent-side clause (every `deleted` that appears belongs to a pod whose DEL was processed or that a GC verified "
+                   "gone) are checked on every step; exploration, not proof",
+        level_note="trusts controller-runtime's fake client as the API server (status subresources, index on spec.nodeName; the interceptor drops "
+                   "status on create of NodeRuntime as a real API server does) and a 400-line cloud stub; the agent is assembled from its real parts "
+                   "without NewCRDV2's controller manager and timers (the 3 s flush, the 5 min job, the GC loop and the reconcile queue are history "
+                   "actions), steps are sequential (no ADD racing a reconcile inside one step); the kernel side of the agent GC runs against the "
+                   "loopback device of a private netns; go map iteration inside the code under test is not owned by the seed",
         tests=[
             dict(unit="c03_node", test="TestVerifC03Functions", quick=20000, thorough=1000000),
-            dict(unit="c03_daemon", test="TestVerifC03ClosedLoop", quick=800, thorough=40000),
+            dict(unit="c03_daemon", test="TestVerifC03ClosedLoop", quick=4000, thorough=300000,
+                 timeout_thorough=3000),
+            dict(unit="c03_daemon", test="TestVerifC03KnownWitnessReAdd", quick=1, thorough=1, shards=1),
         ],
     ),
 }
